@@ -9,6 +9,8 @@ import Umya.Driver.C13
 import Umya.Driver.C19
 import Umya.Driver.C09
 import Umya.Driver.C08
+import Umya.Driver.C14
+import Umya.Driver.C15
 
 structure DState where
   c10 : Umya.Driver.C10.St := {}
@@ -19,6 +21,8 @@ def dispatch (st : DState) (line : String) : DState × String :=
   match line.trimAscii.toString.splitOn " " with
   | "c17" :: args => (st, Umya.Driver.C17.handle args)
   | "c10" :: args => let (s, r) := Umya.Driver.C10.handle st.c10 args; ({ st with c10 := s }, r)
+  | "c14" :: args => (st, Umya.Driver.C14.handle args)
+  | "c15" :: args => (st, Umya.Driver.C15.handle args)
   | "c09" :: args => (st, Umya.Driver.C09.handle args)
   | "c08" :: args => (st, Umya.Driver.C08.handle args)
   | "c19" :: args => (st, Umya.Driver.C19.handle args)
